@@ -818,7 +818,9 @@ pub fn t_pipe(rng: &mut Rng, profile: &'static str, run_seed: u64, miri: bool, t
                         //  DESIGN.md. When the output stream of a pipe is dropped, the pipe's reference to its target is released on the
                         //  crate's internal disposal queue, i.e. Desync::drop - which waits for the target's queue - may run on a pool
                         //  thread: with a pool of one that thread would wait for a take-over only it could perform.)
-                        let abandon_ok = !(through && drop_output) || prog.pool >= 2;
+                        // (the same holds whenever the program gives up its owners of the target: since fix e9d4df7 a pipe_in, too, may release the
+                        //  last reference on the disposal queue)
+                        let abandon_ok = prog.pool >= 2 || !mortal;
                         let body = if rng.chance(1, 2) { vec![Step::Touch] } else { let g = prog.new_gate(); vec![Step::Touch, Step::Gate(g), Step::Touch] };
                         prog.add_op(0, Kind::FutDesync, if abandon_ok { Disp::PollDrop(rng.range(1, 2) as u8) } else { Disp::Detach }, body) }
                     else if r < 94 { prog.add_op(0, Kind::FutDesync, Disp::Detach, vec![Step::Touch, Step::Yield, Step::Touch]) }
